@@ -127,6 +127,9 @@ func (f *obsFunc) GetVariables() []data.Variable {
 
 type inFunc struct{ vals []data.Value }
 
+// NewInFunc returns the script function __in(i) over the given values.
+func NewInFunc(vals []data.Value) data.FuncStmt { return &inFunc{vals: vals} }
+
 func (f *inFunc) Call(ctx data.Context) (data.GetValue, data.Control) {
 	iv, _ := ctx.GetIndexValue(0)
 	if n, ok := iv.(*data.IntValue); ok && n.Value >= 0 && n.Value < len(f.vals) {
